@@ -5,6 +5,7 @@ import PkgProofs.Lemmas.SrcRobust
 /-!
 # Translated source of the marker parser (`_parser.py`) = the model (`Mk.parse…`)
 -/
+set_option linter.unusedSimpArgs false   -- x8: the simp sets list the lemmas of every accepted spelling
 namespace Src
 open PyRt Py PyMk PyPar
 
@@ -330,10 +331,15 @@ theorem _parse_marker_var_agrees (s : PyTok.St) (m : Mk.St) (h : TokRel s m) :
     | none =>
       refine Agrees.err ?_
       simp only [Gen.PySrc._parse_marker_var, TM.run_bind, check_none h rule_variable hv, check_none h rule_quoted hq,
-        ok_bind, truthy_bool, Bool.false_eq_true, if_false, PyTok.raise_syntax_error, TM.run_throw, err_bind]
+        ok_bind, truthy_bool, Bool.false_eq_true, Bool.not_false, Bool.not_true, if_false, if_true, TM.run_ite,
+        PyTok.raise_syntax_error, TM.run_throw, err_bind]
     | some p =>
       obtain ⟨t, m'⟩ := p
-      have e0 : Gen.PySrc._parse_marker_var.run s =
+      -- x8: the run of the translated function is *computed* (`simp` with the `TM` layer and the facts about the tokenizer
+      -- primitives), never stated: any arrangement of the three cases (`if/elif/else`, guard clauses) is accepted
+      show Agrees ofNode _ s (match Mk.pyStrLit t with
+        | .ok v => .ok (.val v, m') | .error _ => .error .invalidMarker)
+      have ev : ∀ r : M (PyVal × PyTok.St), Gen.PySrc._parse_marker_var.run s = r ↔
           (do
             let p ← tryCatch
                 (do
@@ -341,22 +347,20 @@ theorem _parse_marker_var_agrees (s : PyTok.St) (m : Mk.St) (h : TokRel s m) :
                   Except.ok ((Except.error p.fst : Except PyVal Unit), p.snd))
                 fun e => if (catches "SyntaxError" e || catches "ValueError" e) = true
                   then Except.error "ParserSyntaxError" else Except.error e
-            StateT.run (EarlyReturn.runK p.fst (fun r => pure r) fun __r => pure PyVal.none) p.snd) := by
+            StateT.run (EarlyReturn.runK p.fst (fun r => pure r) fun __r => pure PyVal.none) p.snd) = r := by
+        intro r
         simp only [Gen.PySrc._parse_marker_var, TM.run_bind, check_none h rule_variable hv, check_some h rule_quoted hq,
-          ok_bind, truthy_bool, Bool.false_eq_true, if_false, if_true, position_run, read_pend, TM.run_lift, getattr_tok_text,
-          TM.run_tryCatch, TM.run_earlyReturn, TM.run_exceptT_pure, TM.run_ite, PyTok.raise_syntax_error, TM.run_throw,
-          err_bind]
-      rw [process_python_str_eq_model] at e0
-      show Agrees ofNode _ s (match Mk.pyStrLit t with
-        | .ok v => .ok (.val v, m') | .error _ => .error .invalidMarker)
+          ok_bind, truthy_bool, Bool.false_eq_true, Bool.not_true, Bool.not_false, if_false, if_true, position_run, read_pend,
+          TM.run_lift, getattr_tok_text, TM.run_tryCatch, TM.run_earlyReturn, TM.run_exceptT_pure, TM.run_ite, TM.run_pure,
+          PyTok.raise_syntax_error, TM.run_throw, err_bind]
       cases hp : Mk.pyStrLit t with
       | ok v =>
         refine Agrees.ok (s' := adv s t) ?_ (tokrel_adv h hq)
-        rw [e0, hp]
+        rw [ev, process_python_str_eq_model, hp]
         rfl
       | error e =>
         refine Agrees.err ?_
-        rw [e0, hp]
+        rw [ev, process_python_str_eq_model, hp]
         cases e with
         | raw x => cases x <;> rfl
         | _ => rfl
@@ -449,14 +453,17 @@ def LoopAgrees (x : PyTok.TM LoopSt) (s : PyTok.St) (r : Mk.Res (List Mk.M × Mk
 
 /-- the `while tokenizer.check("BOOLOP")` loop is `Mk.parseRest`: any loop body that breaks when there is no BOOLOP and
 otherwise reads it, parses an atom and extends `expression`, run over more items than the model has fuel -/
-theorem while_loop_agrees (atom : PyTok.TM PyVal) (body : Nat → LoopSt → PyTok.TM (ForInStep LoopSt)) (n : Str)
+theorem while_loop_agrees (atom : PyTok.TM PyVal) (body : Nat → LoopSt → PyTok.TM (ForInStep LoopSt))
+    (tk : PyTok.St → Str → PyVal) (ext : PyVal → Str → PyVal → M PyVal)
+    (hext : ∀ (acc : List Mk.M) (t : Str) (b : Mk.M),
+      ext (.list (ofMs acc)) t (ofM b) = .ok (.list (ofMs (acc ++ [.bool t, b]))))
     (hdone : ∀ i st s m, TokRel s m → Mk.St.check .boolop m = none →
       (body i st).run s = .ok (.done (st.1, st.2.1, st.2.2.1, true), s))
     (hstep : ∀ i st s m t m1, TokRel s m → Mk.St.check .boolop m = some (t, m1) →
       (body i st).run s = (do
         let p ← atom.run (adv s t)
-        let e ← list_extend st.2.2.1 (.tuple [.str t, p.1])
-        .ok (.yield (tokObj s n t, p.1, e, st.2.2.2), p.2)))
+        let e ← ext st.2.2.1 t p.1
+        .ok (.yield (tk s t, p.1, e, st.2.2.2), p.2)))
     (g : Nat) (hatom : ∀ g', g' < g → ∀ s m, TokRel s m → Agrees ofM atom s (Mk.parseAtom Mk.charTS g' m)) :
     ∀ (l : List Nat), g < l.length → ∀ (acc : List Mk.M) (tok er : PyVal) (fl : Bool) (s : PyTok.St) (m : Mk.St),
       TokRel s m →
@@ -492,32 +499,35 @@ theorem while_loop_agrees (atom : PyTok.TM PyVal) (body : Nat → LoopSt → PyT
           rw [hpa] at ha
           obtain ⟨s2, e2, h2⟩ := ha
           have hnext := ih (fun g' hg' => hatom g' (Nat.lt_succ_of_lt hg')) l hl' (acc ++ [.bool t, b])
-            (tokObj s n t) (ofM b) fl s2 m2 h2
+            (tk s t) (ofM b) fl s2 m2 h2
           have hrun' : (body i (tok, er, .list (ofMs acc), fl)).run s =
-              .ok (.yield (tokObj s n t, ofM b, .list (ofMs (acc ++ [.bool t, b])), fl), s2) := by
+              .ok (.yield (tk s t, ofM b, .list (ofMs (acc ++ [.bool t, b])), fl), s2) := by
             rw [hrun, e2]
-            simp only [ok_bind, list_extend_list_tuple, ofMs_append, ofMs, ofM]
+            simp only [ok_bind, hext]
           show LoopAgrees _ s (Mk.parseRest Mk.charTS g (acc ++ [.bool t, b]) m2)
           unfold LoopAgrees at hnext ⊢
           rw [TM.run_bind_ok hrun']
           exact hnext
 
 /-- … followed by the code after the loop, which hands `expression` back when the loop was left by `break` -/
-theorem Agrees.while_loop {atom : PyTok.TM PyVal} {body : Nat → LoopSt → PyTok.TM (ForInStep LoopSt)} {n : Str}
+theorem Agrees.while_loop {atom : PyTok.TM PyVal} {body : Nat → LoopSt → PyTok.TM (ForInStep LoopSt)}
+    (tk : PyTok.St → Str → PyVal) (ext : PyVal → Str → PyVal → M PyVal)
     {g : Nat} {l : List Nat} {acc : List Mk.M} {tok er : PyVal} {fl : Bool} {s : PyTok.St} {m : Mk.St}
     {k : LoopSt → PyTok.TM PyVal}
+    (hext : ∀ (acc : List Mk.M) (t : Str) (b : Mk.M),
+      ext (.list (ofMs acc)) t (ofM b) = .ok (.list (ofMs (acc ++ [.bool t, b]))))
     (hdone : ∀ i st s m, TokRel s m → Mk.St.check .boolop m = none →
       (body i st).run s = .ok (.done (st.1, st.2.1, st.2.2.1, true), s))
     (hstep : ∀ i st s m t m1, TokRel s m → Mk.St.check .boolop m = some (t, m1) →
       (body i st).run s = (do
         let p ← atom.run (adv s t)
-        let e ← list_extend st.2.2.1 (.tuple [.str t, p.1])
-        .ok (.yield (tokObj s n t, p.1, e, st.2.2.2), p.2)))
+        let e ← ext st.2.2.1 t p.1
+        .ok (.yield (tk s t, p.1, e, st.2.2.2), p.2)))
     (hatom : ∀ g', g' < g → ∀ s m, TokRel s m → Agrees ofM atom s (Mk.parseAtom Mk.charTS g' m))
     (hl : g < l.length) (h : TokRel s m)
     (hk : ∀ tok er e s, (k (tok, er, e, true)).run s = .ok (e, s)) :
     Agrees ofML (forIn l (tok, er, .list (ofMs acc), fl) body >>= k) s (Mk.parseRest Mk.charTS g acc m) := by
-  have := while_loop_agrees atom body n hdone hstep g hatom l hl acc tok er fl s m h
+  have := while_loop_agrees atom body tk ext hext hdone hstep g hatom l hl acc tok er fl s m h
   unfold LoopAgrees at this
   unfold Agrees
   cases hr : Mk.parseRest Mk.charTS g acc m with
@@ -529,6 +539,21 @@ theorem Agrees.while_loop {atom : PyTok.TM PyVal} {body : Nat → LoopSt → PyT
   | error err =>
     rw [hr] at this
     cases err <;> first | trivial | exact TM.run_bind_err this
+
+set_option hygiene false in
+/-- the three obligations of `Agrees.while_loop` for the translated loop body, by symbolic execution -/
+local macro "marker_loop_cases" : tactic => `(tactic| (
+  case hdone =>
+    intro i st s m h hb
+    simp only [TM.run_bind, check_none h rule_boolop hb, ok_bind, truthy_bool, Bool.not_false, if_true,
+      TM.run_pure]
+  case hstep =>
+    intro i st s m t m1 h hb
+    simp only [TM.run_bind, check_some h rule_boolop hb, ok_bind, truthy_bool, Bool.not_true,
+      Bool.false_eq_true, if_false, read_pend, TM.run_lift, getattr_tok_text, TM.run_pure, bind_assoc]
+  case hk =>
+    intro tok er e s
+    simp only [Bool.not_true, Bool.false_eq_true, if_false, TM.run_pure]))
 
 /-- the translated functions with fuel `F` agree with the model at any fuel `f ≤ F` (the model also spends a unit
 per loop iteration) -/
@@ -549,19 +574,19 @@ theorem _parse_marker_fuel_agrees : ∀ (f F : Nat), f ≤ F → ∀ (s : PyTok.
         simp only [Gen.PySrc._parse_marker__fuel, Mk.parseMarker]
         refine Agrees.bind (ih f (Nat.lt_succ_self f) F hF' s m h).2 fun a s1 m1 h1 => ?_
         dsimp only
-        refine Agrees.while_loop (atom := Gen.PySrc._parse_marker_atom__fuel F) (n := ofString "BOOLOP") (acc := [a])
-          ?hdone ?hstep (fun g' hg' s m h => (ih g' (by omega) F (by omega) s m h).2) (by simp; omega) h1 ?hk
-        case hdone =>
-          intro i st s m h hb
-          simp only [TM.run_bind, check_none h rule_boolop hb, ok_bind, truthy_bool, Bool.not_false, if_true,
-            TM.run_pure]
-        case hstep =>
-          intro i st s m t m1 h hb
-          simp only [TM.run_bind, check_some h rule_boolop hb, ok_bind, truthy_bool, Bool.not_true,
-            Bool.false_eq_true, if_false, read_pend, TM.run_lift, getattr_tok_text, TM.run_pure, bind_assoc]
-        case hk =>
-          intro tok er e s
-          simp only [Bool.not_true, Bool.false_eq_true, if_false, TM.run_pure]
+        -- x8: what one iteration leaves in its first local (the token / its text) and how it extends the list
+        -- (`extend((a, b))` / two `append`s) are parameters of the loop lemma
+        first
+        | (refine Agrees.while_loop (atom := Gen.PySrc._parse_marker_atom__fuel F) (acc := [a])
+            (fun s t => tokObj s (ofString "BOOLOP") t) (fun e t x => list_extend e (.tuple [.str t, x]))
+            (by intro acc t b; simp only [list_extend_list_tuple, ofMs_append, ofMs, ofM])
+            ?hdone ?hstep (fun g' hg' s m h => (ih g' (by omega) F (by omega) s m h).2) (by simp; omega) h1 ?hk
+           marker_loop_cases)
+        | (refine Agrees.while_loop (atom := Gen.PySrc._parse_marker_atom__fuel F) (acc := [a])
+            (fun _ t => PyVal.str t) (fun e t x => do let y ← list_append e (.str t); list_append y x)
+            (by intro acc t b; simp [list_append_list, ofMs_append, ofMs, ofM])
+            ?hdone ?hstep (fun g' hg' s m h => (ih g' (by omega) F (by omega) s m h).2) (by simp; omega) h1 ?hk
+           marker_loop_cases)
       · -- `_parse_marker_atom`
         simp only [Gen.PySrc._parse_marker_atom__fuel, Mk.parseAtom, charTS_check]
         refine Agrees.consume rule_ws h fun s1 h1 => ?_
